@@ -119,6 +119,25 @@ package bluemonday
 //@   modifies nothing
 //@   ensures result.Key == attr.Key && result.Namespace == attr.Namespace
 //@   ensures[C02] result.Val == "" || styleFiltered(p, elementName, result.Val)
+//@   ensures[C10] result.Val == "" || styleOK(p, elementName, result.Val)
+//@   loop 0 "for regex, policies := range p.elsMatchingAndStyles"
+//@     invariant forall k string :: k in sps ==> arr(sps[k]) == nil || allocated(arr(sps[k]))
+//@     invariant[C10] spsFrom(p, elementName, sps)
+//@     after[C10] spsFrom(p, elementName, sps)
+//@   loop 1 "for k, v := range policies"
+//@     invariant forall k string :: k in sps ==> arr(sps[k]) == nil || allocated(arr(sps[k]))
+//@     invariant[C10] spsFrom(p, elementName, sps)
+//@     invariant[C10] rmatch(regex, elementName) && regex in p.elsMatchingAndStyles && policies == p.elsMatchingAndStyles[regex]
+//@   loop 2 "for _, dec := range decs"
+//@     invariant[C10] len(prefixes) == 15 && prefixes[0] == "-webkit-" && prefixes[1] == "-moz-" && prefixes[2] == "-ms-" && prefixes[3] == "-o-" && prefixes[4] == "mso-" && prefixes[5] == "-xv-" && prefixes[6] == "-atsc-" && prefixes[7] == "-wap-" && prefixes[8] == "-khtml-" && prefixes[9] == "prince-" && prefixes[10] == "-ah-" && prefixes[11] == "-hp-" && prefixes[12] == "-ro-" && prefixes[13] == "-rim-" && prefixes[14] == "-tc-"
+//@     invariant[C10] forall j int :: 0 <= j && j < len(clean) ==> declStrOK(p, elementName, clean[j])
+//@     invariant[C10] spsFrom(p, elementName, sps)
+//@   loop 3 "for _, i := range prefixes"
+//@     invariant[C10] rangeindex < len(prefixes) && (rangeindex == -1 ==> tempProperty == pS0(strings.ToLower(dec.Property))) && (rangeindex == 0 ==> tempProperty == pS1(strings.ToLower(dec.Property))) && (rangeindex == 1 ==> tempProperty == pS2(strings.ToLower(dec.Property))) && (rangeindex == 2 ==> tempProperty == pS3(strings.ToLower(dec.Property))) && (rangeindex == 3 ==> tempProperty == pS4(strings.ToLower(dec.Property))) && (rangeindex == 4 ==> tempProperty == pS5(strings.ToLower(dec.Property))) && (rangeindex == 5 ==> tempProperty == pS6(strings.ToLower(dec.Property))) && (rangeindex == 6 ==> tempProperty == pS7(strings.ToLower(dec.Property))) && (rangeindex == 7 ==> tempProperty == pS8(strings.ToLower(dec.Property))) && (rangeindex == 8 ==> tempProperty == pS9(strings.ToLower(dec.Property))) && (rangeindex == 9 ==> tempProperty == pS10(strings.ToLower(dec.Property))) && (rangeindex == 10 ==> tempProperty == pS11(strings.ToLower(dec.Property))) && (rangeindex == 11 ==> tempProperty == pS12(strings.ToLower(dec.Property))) && (rangeindex == 12 ==> tempProperty == pS13(strings.ToLower(dec.Property))) && (rangeindex == 13 ==> tempProperty == pS14(strings.ToLower(dec.Property))) && (rangeindex == 14 ==> tempProperty == pS15(strings.ToLower(dec.Property)))
+//@   loop 4 "for _, sp := range spl"
+//@     invariant[C10] rangeindex < len(spl) && (forall j int :: 0 <= j && j < len(spl) ==> styleRuleEl(p, elementName, tempProperty, spl[j]) || styleRulePat(p, elementName, tempProperty, spl[j]))
+//@   loop 5 "for _, sp := range spl"
+//@     invariant[C10] rangeindex < len(spl) && (forall j int :: 0 <= j && j < len(spl) ==> styleRuleGlob(p, tempProperty, spl[j]))
 
 //@ func (*bluemonday.Policy).sanitizeAttrs
 //@   reveal[C14] wfRegex
@@ -680,7 +699,14 @@ package bluemonday
 //@   requires url != nil
 //@   modifies nothing
 
+//@ func bluemonday.stringInSlice
+//@   modifies nothing
+//@   ensures[C10] result <==> inFoldC(elems(haystack), off(haystack), len(haystack), needle)
+//@   loop 0 "for _, straw := range haystack"
+//@     invariant[C10] rangeindex < len(haystack) && (forall i int :: 0 <= i && i <= rangeindex ==> !strings.EqualFold(haystack[i], needle))
+
 //@ func bluemonday.removeUnicode
+//@   pure
 //@   modifies nothing
 //@   loop 0 "for currentLoc != nil"
 //@     invariant currentLoc == nilslice || (len(currentLoc) == 2 && 0 <= currentLoc[0] && currentLoc[0] + 2 <= currentLoc[1] && currentLoc[1] <= len(substitutedValue))
